@@ -11,6 +11,22 @@ from . import iorules
 from .C13 import exception_construct
 
 
+def _kw_aliases(fi):
+    kw = fi.node.args.kwarg.arg if fi.node.args.kwarg else None
+    out = {}
+    for n in own_nodes(fi.node):
+        if isinstance(n, ast.Assign) and len(n.targets) == 1 and isinstance(n.targets[0], ast.Name):
+            k, _ = iorules._kw_read(n.value, kw)
+            if k is not None:
+                out.setdefault(n.targets[0].id, set()).add(k)
+    return out
+
+
+def _is_dt(e, names):
+    return (isinstance(e, ast.Name) and e.id in names) or (iorules._kw_read(e, None)[0] == "DataType") or (isinstance(e, ast.Subscript) and isinstance(e.slice, ast.Constant) and e.slice.value == "DataType") \
+        or (isinstance(e, ast.Call) and isinstance(e.func, ast.Attribute) and e.func.attr == "get" and e.args and isinstance(e.args[0], ast.Constant) and e.args[0].value == "DataType")
+
+
 def run(ctx, idx):
     ctx.assume("netCDF4 API: Dataset[...] / createVariable / createDimension / ncattrs as documented; numpy axioms A14, A15, A19, A20")
     ctx.rule("C18.a", "Parameters mean what they clean to: kwargs.get defaults and literals compared with cleaned parameters lie in the cleaned domain (a DataType is a type object, so 'Float' / 'Fuzzy' are not); raw names are read through get_argument_value.")
@@ -93,6 +109,72 @@ def run(ctx, idx):
                 ctx.ob("C18.a", con2, d.module.rel, (conv[0][1] if conv else recv[0][1]).lineno, not conv,
                        "the sign test reads the values as they come from the file" if not conv else
                        "the sign test reads `%s`, which has already been converted (`%s`): for Positive Integer the cast to an unsigned type wraps negative values to huge positive ones, so the check can never fire" % (conv[0][0], K.src(conv[0][2].value)[:50]))
+    # rounding before an integer cast covers every integral element type of the DataType table (a float -> integer cast truncates)
+    vt = d.inputs["DataType"].kw.get("valid_types") if "DataType" in d.inputs else None
+    rints = [n for n in own_nodes(fi.node) if isinstance(n, ast.Call) and (idx.qualname(fi.module, n.func, fi) or "") in ("numpy.rint", "numpy.round", "numpy.around", "numpy.round_")]
+    con = "%s.execute::rounding-covers-integer-types" % d.key
+    if isinstance(vt, dict) and vt:
+        def tkind(q):
+            q = str(getattr(q, "qual", q))
+            nm = q.split(".")[-1]
+            if q == "builtins.int" or nm.startswith("int") or nm in ("long", "longlong", "intp", "short", "byte", "signedinteger"):
+                return "i"
+            if nm.startswith("uint") or nm in ("ulong", "ulonglong", "uintp", "ushort", "ubyte", "unsignedinteger"):
+                return "u"
+            if q == "builtins.float" or nm.startswith("float") or nm in ("double", "single", "half", "floating"):
+                return "f"
+            if nm == "integer":
+                return "iu"
+            if nm in ("number", "generic"):
+                return "iuf"
+            return "?"
+
+        integral = sorted({nm for nm, q in vt.items() if tkind(q) in ("i", "u")})
+        if not rints:
+            ctx.violate("C18.a", con, d.module.rel, fi.node.lineno, "floating file data is cast to %s without rounding: the cast truncates (2.6 is read as 2)" % ", ".join(integral))
+        else:
+            guard = None
+            for n in own_nodes(fi.node):
+                if isinstance(n, ast.If) and any(rints[0] is x for b in n.body for x in ast.walk(b)):
+                    guard = n.test
+            dt_names = {a for a, ks in _kw_aliases(fi).items() if "DataType" in ks}
+
+            def holds(e, q):
+                """truth of the guard conjunct for element type q; None when the conjunct does not speak about the type"""
+                e = K.expand(fi, e) if not (isinstance(e, ast.Name) and e.id in dt_names) else e
+                if isinstance(e, ast.BoolOp) and isinstance(e.op, ast.And):
+                    vs = [holds(v, q) for v in e.values]
+                    if any(v is False for v in vs):
+                        return False
+                    return True if any(v is True for v in vs) else None
+                if isinstance(e, ast.BoolOp) and isinstance(e.op, ast.Or):
+                    vs = [holds(v, q) for v in e.values]
+                    if any(v is True for v in vs):
+                        return True
+                    return False if all(v is False for v in vs) else None
+                if isinstance(e, ast.Compare) and len(e.ops) == 1 and _is_dt(e.left, dt_names):
+                    if isinstance(e.ops[0], (ast.In, ast.NotIn)) and isinstance(e.comparators[0], (ast.Tuple, ast.List, ast.Set)):
+                        quals = [idx.qualname(fi.module, x, fi) for x in e.comparators[0].elts]
+                        res_ = str(getattr(q, "qual", q)) in quals
+                        return res_ if isinstance(e.ops[0], ast.In) else not res_
+                    if isinstance(e.ops[0], (ast.Is, ast.Eq)):
+                        return idx.qualname(fi.module, e.comparators[0], fi) == str(getattr(q, "qual", q))
+                if isinstance(e, ast.Call) and (idx.qualname(fi.module, e.func, fi) or "") == "numpy.issubdtype" and len(e.args) == 2 and _is_dt(e.args[0], dt_names):
+                    want = tkind(idx.qualname(fi.module, e.args[1], fi) or "?")
+                    if want == "?":
+                        raise AnalysisError("C18.a: numpy.issubdtype(..., %s) is outside the type table" % K.src(e.args[1]))
+                    return tkind(q) in want
+                if any(_is_dt(x, dt_names) for x in ast.walk(e)):
+                    raise AnalysisError("C18.a: rounding guard `%s` is outside the recognised forms" % K.src(e)[:70])
+                return None
+
+            missing = []
+            if guard is not None:
+                for nm in integral:
+                    if holds(guard, vt[nm]) is False:
+                        missing.append(nm)
+            ctx.ob("C18.a", con, d.module.rel, rints[0].lineno, not missing, "floating data is rounded before the cast for %s" % ", ".join(integral) if not missing else
+                   "the rounding step is skipped for the element type of %s (the guard `%s` is false for it: numpy.issubdtype(numpy.uint, int) is False): floating file values are then truncated by the cast (2.6 reads as 2) while the signed integer type rounds" % (", ".join(missing), K.src(K.expand(fi, guard))[:80]))
     # ---- b
     n_t = 0
     for key in (rd, wr):
@@ -121,6 +203,12 @@ def run(ctx, idx):
                "cells are marked missing by a `%s` comparison with `%s`, not by equality: valid cells merely close to the missing value are reported missing" % ("/".join(ops), miss[0]) if ok else
                "the MissingValue mask is not stored on the returned array"))
     R.zero_is_a_value(ctx, "C18.d", d, r)
+    for v in rets:
+        if "file" in v.D:
+            keeps = "file" in v.M
+            ctx.ob("C18.d", "%s.execute::file-mask-kept" % d.key, d.module.rel, fi.node.lineno, keeps,
+                   "the variable's own missing cells stay missing (union with the missing-value mask)" if keeps else
+                   "the mask assigned to the returned array replaces the mask the file delivers: cells the variable marks missing (_FillValue) are returned as ordinary numbers whenever MissingValue is given")
     # ---- d (write)
     d, r = wr
     fi = d.execute
